@@ -64,7 +64,7 @@ def multi_lines(run, pool, n, k=3):
     return out
 
 
-GEN_FILES = ["scen_F1.ndjson", "scen_F2.ndjson", "scen_F3.ndjson", "scen_F4.ndjson", "scen_F5.ndjson", "scen_F6.ndjson", "scen_Probe.ndjson", "scen_Wait.ndjson"]
+GEN_FILES = ["scen_F1.ndjson", "scen_F2.ndjson", "scen_F3.ndjson", "scen_F4.ndjson", "scen_F5.ndjson", "scen_F6.ndjson", "scen_Probe.ndjson", "scen_Wait.ndjson", "scen_F8.ndjson"]
 CONN_ASSUME = ["scripted handlers (finite reply scripts shipped in the call parameters)",
                "unix stream sockets; service reads are unlogged and inferred by TLC",
                "trace recorder ordering discipline (harness/tr)"]
@@ -134,7 +134,8 @@ def check_C04(run):
     run.extra["scenario_space"] = {"method_strings": len(f4), "non_call_frames": len(garbage)}
     nt = lambda c: has_ev(c, "CR")
     for treg, mcreg, flag in REGSETS:
-        lines = f4 if thorough else sample(run, f4, 500)
+        flagged = [l for l in f4 if '"upgrade":true' in l or '"more":true' in l]     # calls that carry flags: always run
+        lines = f4 if thorough else sample(run, f4, 500) + sample(run, flagged, 60)
         replay_validate(run, lines, ["conn", "-reg", flag], "ConnTrace", conn_trace_cfg(reg=treg),
                         "C04 method strings against registered {%s}" % flag, nontrivial=nt)
     replay_validate(run, garbage, ["conn"], "ConnTrace", conn_trace_cfg(), "C04 frames that are not a call object", nontrivial=lambda c: True)
@@ -159,12 +160,33 @@ def check_C10(run):
     ml = ['{"c1":%s,"c2":%s}' % (l, probe) for l in (lines if thorough else sample(run, lines, 300))]
     replay_validate(run, ml, ["conn", "-multi"], "ConnTrace", conn_trace_cfg('{"c1", "c2"}'),
                     "C10 hostile stream + concurrent well-behaved connection", nontrivial=nt)
+    # a subscriber that vanishes while its handler streams: the handler must be told that its replies fail
+    run.model_check("ConnMC", conn_mc_cfg("F8"), "Conn F8: a more-call whose client vanishes while the handler streams (writes to a vanished peer fail after at most LostCap frames)", timeout=600)
+    f8 = g["scen_F8.ndjson"]
+    replay_validate(run, f8 * (6 if thorough else 2), ["conn"], "ConnTrace", conn_trace_cfg(), "C10 a streaming handler whose client vanishes",
+                    nontrivial=lambda c: has_ev(c, "RE"), shards=4)
+    # a connection accepted before a Shutdown is still answered afterwards (it drains): histories of spec/ServiceGen.tla in
+    # which a client that was accepted before the Shutdown makes a complete call after it
+    from props_service import svc_schedules, svc_trace_cfg
+
+    def call_after_shutdown(x):
+        ops = json.loads(x)
+        for i, o in enumerate(ops):
+            if o["op"] == "Shutdown":
+                before = {q["c"] for q in ops[:i] if q["op"] == "Deliver"} - {q["c"] for q in ops[:i] if q["op"] == "End"}
+                return any(q["op"] == "End" and q.get("how") == "close" and q["c"] in before for q in ops[i + 1:])
+        return False
+    ss, _ = svc_schedules(run, False)
+    cas = [x for x in ss if '"timeout":true' not in x and call_after_shutdown(x)]
+    run.extra["scenario_space"]["service_histories_with_a_call_after_shutdown"] = len(cas)
+    replay_validate(run, cas if thorough else sample(run, cas, 150), ["service"], "ServiceTrace", svc_trace_cfg(),
+                    "C10 complete calls on a connection accepted before Shutdown are answered after it", nontrivial=lambda c: has_ev(c, "ShutdownEnd"), shards=8)
     # abort at every byte offset of the first frame
     cut = [l for l in f6 if json.loads(l)["segs"] == [1] and json.loads(l)["frames"][0]["nb"] == 2]
     cl = cut if thorough else sample(run, cut, 6)
     replay_validate(run, cl, ["conn", "-allcuts"], "ConnTrace", conn_trace_cfg(), "C10 client stops at every byte offset of the first frame", nontrivial=nt, shards=min(16, len(cl)))
     run.write_evidence("model_checking",
-        "streams = TLC-enumerated family F6 of spec/ConnScen.tla (valid calls, null, invalid JSON, non-objects, wrong member types, empty frame, partial trailing frame; up to 2 frames; all compositions into writes; client half-closes or aborts after any symbol); byte-level: the cut inside the first frame placed at every byte offset; non-trivial = the client ended the stream (every scenario)",
+        "streams = TLC-enumerated family F6 of spec/ConnScen.tla (valid calls, null, invalid JSON, non-objects, wrong member types, empty frame, partial trailing frame; up to 2 frames; all compositions into writes; client half-closes or aborts after any symbol); F8: a more-call answered cont, pause, cont, cont, cont, final whose client has vanished meanwhile - a write to a vanished peer may be accepted at most once more (LostCap), then the handler is told; byte-level: the cut inside the first frame placed at every byte offset; non-trivial = the client ended the stream (every scenario)",
         exhaustive=thorough, assumptions=CONN_ASSUME + ["ambiguous JSON (duplicate or case-variant keys) follows encoding/json and is not generated"])
 
 
